@@ -133,6 +133,7 @@ Definition veq (a b : ival) : bool :=
   | VStr x, VStr y => text_eqb x y
   | VKind x, VKind y => fkind_eqb x y
   | VMro (MStr x), VStr y => text_eqb x y
+  | VStr y, VMro (MStr x) => text_eqb x y
   | _, _ => false
   end.
 
